@@ -1,7 +1,8 @@
 (* C09 - Reading is correct and printing round-trips.                        *)
-(* Statements only; the proofs are in Proofs/ReadPrint.v and Proofs/Decimal.v. *)
+(* Statements only; the proofs are in Proofs/ReadPrint.v, Proofs/Decimal.v and   *)
+(* Proofs/Lexer.v.                                                               *)
 From TL Require Import Base.Base Model.Reader Model.Printer Model.Store Model.Eval Model.Init.
-From TL Require Import Proofs.Decimal Proofs.ReadPrint.
+From TL Require Import Proofs.Decimal Proofs.ReadPrint Proofs.Lexer.
 Local Open Scope list_scope.
 
 (* The parser inverts the token-level printer: for every data value (nil, t, *)
@@ -28,6 +29,41 @@ Theorem C09_integer_roundtrip : forall z, in_i64 z = true -> parse_i64 (print_Z 
 Proof. exact parse_print_Z. Qed.
 Theorem C09_integer_printing_injective : forall a b, print_Z a = print_Z b -> a = b.
 Proof. exact print_Z_inj. Qed.
+
+(* CHARACTER LEVEL, WHOLE VALUES.  [rd F v] (Proofs/Lexer.v) says what is asked of *)
+(* the atoms of v: integers are in the i64 range; a symbol's name is a readable     *)
+(* token (starts with a character that begins an identifier, contains no white      *)
+(* space or closing parenthesis, does not scan as a number, is not t or nil); a     *)
+(* float's shortest decimal is read back as that float by the binary64 oracle (an   *)
+(* assumption about the oracle, named in the trusted base); an unquoted form does   *)
+(* not start with @.  Strings, lists, dotted tails and quote marks are              *)
+(* unrestricted.  Then reading the printed text yields exactly one form, the value. *)
+Theorem C09_print_then_read : forall F fl, t_interned fl = false -> nil_interned fl = false ->
+  forall v, rd F v -> exists a, read_ax F fl (print F v) = Ok [a] /\ strip a = v.
+Proof. exact print_read. Qed.
+
+(* ANY LAYOUT.  A text that writes the tokens of a value with arbitrary gaps (white *)
+(* space characters and ;-comments, in any number and order) before each token and  *)
+(* after the last one, reads as that value - provided an identifier or number is    *)
+(* followed by white space, a closing parenthesis or the end of the text (the       *)
+(* as-built delimiter rule, D15) and a comma is not followed by @.                  *)
+Theorem C09_any_layout : forall F fl, t_interned fl = false -> nil_interned fl = false ->
+  forall v items trail, rdata v -> wfl F items trail ->
+  map (fun it => ltoken (snd it)) items = toks v ->
+  exists a, read_ax F fl (render items trail) = Ok [a] /\ strip a = v.
+Proof. exact layout_read. Qed.
+
+(* which atoms are readable: every i64; every name that starts with neither a digit *)
+(* nor a minus sign nor a delimiter and contains no white space or )                *)
+Theorem C09_integers_readable : forall F z, in_i64 z = true -> atom_ok F (print_Z z) (TInt z).
+Proof. exact int_atom. Qed.
+Theorem C09_plain_symbols_readable : forall F c n,
+  ordinary c = true -> is_digit c = false -> N.eqb c c_minus = false -> nostop (c :: n) = true ->
+  atom_ok F (c :: n) (TIdent (c :: n)).
+Proof. exact plain_symbol. Qed.
+
+Print Assumptions C09_print_then_read. Print Assumptions C09_any_layout.
+Print Assumptions C09_integers_readable. Print Assumptions C09_plain_symbols_readable.
 
 Print Assumptions C09_parser_inverts_printer. Print Assumptions C09_string_roundtrip.
 Print Assumptions C09_integer_roundtrip. Print Assumptions C09_integer_printing_injective.
@@ -60,7 +96,56 @@ Example C09_layouts :
   end.
 Proof. vm_compute. reflexivity. Qed.
 
+(* non-vacuity: the value v0 satisfies the hypothesis of C09_print_then_read, and a *)
+(* layout with comments, tabs and line breaks satisfies that of C09_any_layout        *)
+Ltac atom_tac := eexists; eexists; split; [reflexivity|]; split; [reflexivity|]; split; reflexivity.
+Example C09_v0_is_readable : rd F0 v0.
+Proof.
+  unfold v0. simpl.
+  repeat match goal with
+         | |- _ /\ _ => split
+         | |- True => exact I
+         | |- in_i64 _ = true => reflexivity
+         | |- atom_ok _ _ _ => atom_tac
+         | |- _ <> _ => discriminate
+         end.
+Qed.
+Definition lay0 : list (text * ltok) :=
+  [ (s2t " ", LOpen); ([], LAtom (s2t "a") (TIdent (s2t "a")));
+    (s2t " ; comment (with parens
+	 ", LOpen); ([], LAtom (s2t "b") (TIdent (s2t "b"))); (s2t " ", LDot);
+    (s2t "
+", LAtom (s2t "c") (TIdent (s2t "c"))); ([], LClose); (s2t "	", LQuote);
+    ([], LAtom (s2t "d") (TIdent (s2t "d"))); (s2t "  ", LStr (s2t "s")); ([], LAtom (s2t "-7") (TInt (-7)));
+    (s2t " ", LClose) ].
+Definition val0 : sx := of_list [Sym (s2t "a"); Cons (Sym (s2t "b")) (Sym (s2t "c"));
+                                 Quote (Sym (s2t "d")); Str (s2t "s"); Int (-7)] Nil.
+Ltac gap_tac :=
+  repeat first [ apply gap_nil
+               | apply gap_ws; [reflexivity|]
+               | apply (gap_comment (s2t " comment (with parens")); [reflexivity|] ].
+Example C09_layout_applies :
+  wfl F0 lay0 (s2t " ; the end") /\ map (fun it => ltoken (snd it)) lay0 = toks val0 /\ rdata val0.
+Proof.
+  split; [|split; [reflexivity|simpl; repeat split; discriminate]].
+  simpl.
+  repeat match goal with
+         | |- _ /\ _ => split
+         | |- True => exact I
+         | |- isgap _ => gap_tac
+         | |- atom_ok _ _ _ => atom_tac
+         | |- term _ => first [left; reflexivity | right; eexists; eexists; split; reflexivity]
+         | |- istrail _ => apply trail_ws; [reflexivity|]; apply (trail_open (s2t " the end")); reflexivity
+         end.
+Qed.
+
 Check C09_parser_inverts_printer : forall fl,
   t_interned fl = false -> nil_interned fl = false ->
   forall v, rdata v -> forall fuel ts rest, map fst ts = toks v -> (List.length ts < fuel)%nat ->
   exists a, parse_value fl fuel (ts ++ rest) = Ok (Some (a, rest)) /\ strip a = v.
+Check C09_print_then_read : forall F fl, t_interned fl = false -> nil_interned fl = false ->
+  forall v, rd F v -> exists a, read_ax F fl (print F v) = Ok [a] /\ strip a = v.
+Check C09_any_layout : forall F fl, t_interned fl = false -> nil_interned fl = false ->
+  forall v items trail, rdata v -> wfl F items trail ->
+  map (fun it => ltoken (snd it)) items = toks v ->
+  exists a, read_ax F fl (render items trail) = Ok [a] /\ strip a = v.
